@@ -216,6 +216,21 @@ def run(ctx):
             res.count("serialization_order_checked")
             if back != final:
                 res.violation(case, "the serialization does not parse back to the mapping's items in the mapping's order", impl=str(back)[:300], expected=str(final)[:300]); continue
+        if kind == "SSCChart" and all(k == k.upper() and k.strip() == k and k != "NOTEDATA" for k, _ in final) \
+                and all(isinstance(v, str) and not any(ch in v for ch in "#/\\") for _, v in final) \
+                and ("NOTES" in dict(final) or "NOTES2" in dict(final)):
+            # an SSC chart's serialization shows exactly its mapping: every item, the note data (NOTES, or NOTES2 when only the
+            # alias is stored) written last *under its own key*
+            nk = "NOTES2" if ("NOTES" not in dict(final) and "NOTES2" in dict(final)) else "NOTES"
+            try:
+                back = [[k, v] for k, v in cls.from_str(str(obj)).items()]
+            except Exception as e:
+                back = core.exc_name(e)
+            exp_items = [[k, v] for k, v in final if k != nk] + [[nk, dict(final)[nk]]]
+            res.count("sscchart_serialization_checked")
+            if back != exp_items and not ("NOTES" in dict(final) and "NOTES2" in dict(final)):
+                res.violation(case, "the serialized SSC chart does not parse back to the mapping's items (note data last, under its own key)",
+                              impl=str(back)[:300], expected=str(exp_items)[:300]); continue
         reqs.append({"op": "views.run", "kind": kind, "d": start, "ops": seq}); metas.append((case, outs, final))
     resp = ctx.lean.eval_sharded(reqs, shards=16)
     for (case, outs, final), m in zip(metas, resp):
